@@ -7,7 +7,7 @@ THEOREM_NOTE = ("Props/C02.lean: every handler invocation is for a handler regis
                 "enqueues exactly one exception signal of priority -20 and the next handler runs; priority -20 overtakes everything less urgent; an exception signal "
                 "without a handler ends the process with status 1 after printing a blank line and the screen stack")
 ASSUMPTIONS = ASSUME_SESSION + ["the traceback goes to stderr through sys.excepthook; the oracle checks its presence, the model does not print it"]
-RULE = ("loop-mode programs with 0..4 handlers per class, handlers shared between classes, raising subsets, with and without an application ExceptionSignal handler; "
+RULE = ("[thorough tier adds the small-scope exhaustive enumeration of harness/gen/exhaustive.py: every loop program with a <= 2-action and a <= 1-action handler over a 10-action alphabet, 3 663 programs] loop-mode programs with 0..4 handlers per class, handlers shared between classes, raising subsets, with and without an application ExceptionSignal handler; "
         "generic loop/app sessions; oracle: per dispatched signal the handler sequence is a prefix of the registered list in registration order with the registered data "
         "(complete unless the run was stopped or the dispatch is still in progress), kill path = exit status 1 + blank line + stack dump + traceback; non-trivial = a "
         "signal with >= 2 handlers dispatched or a handler raised")
@@ -41,6 +41,9 @@ def generate(rnd, tier):
     n = 500 if tier == "quick" else 6000
     sid = SidCounter()
     cases = [gen_c02(rnd, sid) for _ in range(n)] + [gen_case(rnd, "loop", sid) for _ in range(n // 2)] + [gen_case(rnd, "app", sid) for _ in range(n // 4)]
+    if tier == "thorough":
+        from harness.gen.exhaustive import loop_programs
+        cases += list(loop_programs(sid))          # small-scope exhaustive: 3 663 programs
     return [with_cc(c) for c in cases]
 
 
